@@ -477,3 +477,29 @@ def _ops():
 
 OPS = _ops()
 OP_NAMES = tuple(OPS)
+
+
+# ------------------------------------------------------------------ outcomes
+def outcome(fn, scn):
+    try:
+        return ('ok', fn(scn))
+    except BaseException as e:  # noqa: BLE001 - judged by the oracle
+        e.__traceback__ = None
+        return ('exc', e)
+
+
+def describe_outcome(o):
+    if o[0] == 'exc':
+        return '%s: %s' % (type(o[1]).__name__, str(o[1])[:200])
+    return 'returned ' + type(o[1]).__name__
+
+
+def same_outcome(a, b):
+    from optsim.same import same
+    if a[0] != b[0]:
+        return 'reference %s vs observed %s' % (describe_outcome(a), describe_outcome(b))
+    if a[0] == 'exc':
+        if type(a[1]) is not type(b[1]):
+            return 'exception type %s vs %s' % (type(a[1]).__name__, type(b[1]).__name__)
+        return None
+    return same(a[1], b[1])
